@@ -10,24 +10,23 @@ COMMON_NOTE = ("Assumes S1-S10 of DESIGN.md section 2 (Python semantics of the e
                "pyvc/theory.py (Lean statements in lean/PyVC.lean; conformance-tested against CPython on every run), "
                "and solver soundness (z3 5.1 / cvc5 1.0 / z3 4.8). ")
 
+BOUNDED_TECH = ("contracts on the real functions checked by the bounded native stand-in (runtime evaluation of the contract "
+                "clauses against an independent reference semantics on enumerated + seeded inputs); supporting leaf "
+                "contracts discharged deductively where listed in the evidence")
+P = 'proof'
+X = 'exploration'
+
 CLAIMED = {
-    'C03': dict(
-        text="Unbounded proof: _extract_bits, read_as_int and read_as_bytes are symbolically executed from the real "
-             "source on every run against the oracle bits(B,p,n) (unsigned big-endian value of bits p..p+n-1) for "
-             "symbolic buffer, cursor and width; every path (aligned fast path, shift-and-mask path, end-of-packet "
-             "guard, to_bytes overflow) yields named obligations discharged by z3/cvc5; cursor and frame clauses "
-             "included. Native replay of the same contracts gives the reachability witnesses.",
-        design_ref="DESIGN.md 7 (C03)", note="no external assumptions beyond S1/S2",
-        technique="contract-based deductive verification: AST->VC symbolic execution of the real functions, z3/cvc5"),
-    'C13': dict(
-        text="Unbounded proof: create_ccsds_packet is proved to raise ValueError exactly outside the field ranges and "
-             "otherwise to produce the CCSDS header polynomial v*2^45+t*2^44+s*2^43+a*2^32+f*2^30+c*2^16+(len-1) "
-             "followed by the data; each accessor is proved against bits(self,p,n) at the CCSDS position; the "
-             "round-trip is a ghost client program verified against the two contracts only. Re-framing by the "
-             "framer is part of C02's proof tree.",
-        design_ref="DESIGN.md 7 (C13)", note="E11 (cached_property returns the first computed value; the buffer is immutable)",
-        technique="contract-based deductive verification + lemma as ghost client program over contracts"),
-    'C02': dict(
+    'C01': dict(cat=X,
+        text="Composition of the two halves. Decode half: the framer (C02/C10), the bit cursor (C03), integer decoding "
+             "(C04) and the header accessors (C13) are PROVED unbounded; container walk, criteria, calibration, string/"
+             "binary fields and the stream loop are checked against the reference semantics specs/refsem.py "
+             "(ref_parse / ref_stream: item by item value, raw value and class) by the bounded stand-in. Load half: "
+             "documents emitted by an independent XTCE writer in every namespace convention are loaded and compared "
+             "with the same definition assembled from objects (bounded).",
+        design_ref="DESIGN.md 7 (C01), 16", note="E1-E7; bounded parts listed under coverage.bounded of the evidence",
+        technique=BOUNDED_TECH),
+    'C02': dict(cat=P,
         text="Unbounded proof for all three source kinds: ccsds_generator is verified with loop invariants (buffer window "
              "read_buffer == T[R-len:R], position == frame boundary fb(j), yielded == the j consecutive records) against "
              "the ghost source model E1 in which every read()/recv() returns SOME non-empty prefix of what remains "
@@ -35,32 +34,121 @@ CLAIMED = {
              "exactness on well-formed streams is a lemma (ghost client program) over the framer's contract.",
         design_ref="DESIGN.md 7 (C02)", note="E1 (assumed contract on BufferedIOBase.read/seek and socket.recv)",
         technique="contract-based deductive verification with loop invariants; lemma over contracts"),
-    'C10': dict(
+    'C03': dict(cat=P,
+        text="Unbounded proof: _extract_bits, read_as_int and read_as_bytes are symbolically executed from the real "
+             "source on every run against the oracle bits(B,p,n) (unsigned big-endian value of bits p..p+n-1) for "
+             "symbolic buffer, cursor and width; every path (aligned fast path, shift-and-mask path, end-of-packet "
+             "guard, to_bytes overflow) yields named obligations discharged by z3/cvc5; cursor and frame clauses "
+             "included. Native replay of the same contracts gives the reachability witnesses.",
+        design_ref="DESIGN.md 7 (C03)", note="no external assumptions beyond S1/S2",
+        technique="contract-based deductive verification: AST->VC symbolic execution of the real functions, z3/cvc5"),
+    'C04': dict(cat=P,
+        text="Integer half proved unbounded: _twos_complement and IntegerDataEncoding._get_raw_value against "
+             "int_decode(bits(...), n, encoding, byte order) for symbolic width, offset and buffer, cursor clause "
+             "included. The value/class selection of NumericDataEncoding.parse_value and the float half (IEEE via "
+             "struct.unpack = E2, MIL-STD-1750A arithmetic) are checked by the bounded stand-in against exact-rational "
+             "reference decoders (special bit patterns: signed zeros, infinities, NaN, subnormals).",
+        design_ref="DESIGN.md 7 (C04)", note="E2 (struct.unpack is the IEEE-754 value), E3 (real arithmetic); float half bounded",
+        technique="contract-based deductive verification (integers); bounded stand-in for floats and class selection"),
+    'C05': dict(cat=X,
+        text="parse_ccsds_packet and the container walk are checked against ref_parse (descend to the unique child whose "
+             "criteria hold; abstract dead end / ambiguity -> unrecognized with partial data; header and user-data "
+             "views) on random container trees (depth 3, overlapping criteria, nested references, unconditional "
+             "inheritance) built from objects and loaded from XML; inheritor back-population is compared with the set of "
+             "containers naming the base. Header accessors and the cursor reads underneath are proved (C03/C13).",
+        design_ref="DESIGN.md 7 (C05), 16", note="bounded stand-in for the walk; see evidence.bounded", technique=BOUNDED_TECH),
+    'C06': dict(cat=X,
+        text="Comparison / Condition / BooleanExpression / DiscreteLookup.evaluate are checked against the mathematical "
+             "relation (exact rationals for int-vs-float) with the literal coerced in the type of the selected value: "
+             "every accepted operator spelling x both selectors x int/float/str values incl. 0, 0.0, '' and negatives; "
+             "ALL ANDed/ORed trees of depth <= 3 over two conditions x all assignments, random trees to depth 5.",
+        design_ref="DESIGN.md 7 (C06), 16", note="bool- and bytes-valued operands and mixed text/number operands are outside the statement (contract requires)",
+        technique=BOUNDED_TECH),
+    'C07': dict(cat=X,
+        text="String and binary parse_value are checked against reference decoders written from the statement (field "
+             "length fixed / first matching lookup / referenced raw-or-calibrated value through slope*x+intercept; binary "
+             "left-padded; string raw buffer right-padded; text = whole buffer | before the first character-aligned "
+             "terminator | leading size tag), cursor == old + computed length; lengths that are not whole bytes, bit "
+             "offsets 0..11, seven character encodings. The bit reads underneath are proved (C03).",
+        design_ref="DESIGN.md 7 (C07), 16", note="E4 (codecs are CPython's)", technique=BOUNDED_TECH),
+    'C08': dict(cat=X,
+        text="Numeric parse_value (first matching context calibrator, else default, else raw; calibrated results are "
+             "FloatParameter; raw_value kept), polynomial and spline calibration (every knot, both end points, "
+             "extrapolation on/off) are checked against exact-rational reference semantics; enumeration and boolean "
+             "derivation through whole-packet decoding. Integer raw extraction underneath is proved (C04).",
+        design_ref="DESIGN.md 7 (C08), 16", note="rounding is not claimed: float results compared to the exact value up to 1e-9 relative (S3)",
+        technique=BOUNDED_TECH),
+    'C09': dict(cat=X,
+        text="Ghost program c09_roundtrip on random definitions built from objects and loaded from XML: L(W(D)) is "
+             "compared with D by an independent structural comparison (adjustment callables probed) and by identical "
+             "reference decoding of packets reaching every container.",
+        design_ref="DESIGN.md 7 (C09), 16", note="E6: lxml is C code; no contract within the prover's reach, bounded only",
+        technique="bounded stand-in only (ghost client program run natively); deductive proof not reached - lxml"),
+    'C10': dict(cat=P,
         text="Total-correctness proof of the same function for ARBITRARY finite sources: decreases clauses on all three "
              "loops (termination), every yielded item is complete (its own length field) and a consecutive slice of the "
              "input, the unconsumed remainder is shorter than one complete record, no exception escapes - for bytes, "
              "file and socket sources under E1, empty input and every cut point included (symbolic).",
         design_ref="DESIGN.md 7 (C10)", note="E1; decode-time exceptions of a definition's decoders belong to C07/C08/C14",
         technique="contract-based deductive verification incl. termination (loop variants)"),
-    'C14': dict(
-        text="Proof of the cursor accounting clauses on the read path: every read that returns normally has "
-             "nbits >= 0 and moves the cursor by exactly nbits (so the cursor is monotone), reads past the end raise "
-             "or leave the cursor beyond the end; integer field decoding advances by exactly its width.",
-        design_ref="DESIGN.md 7 (C14)", note="generator-level clean_iff clause: see evidence for whether it was discharged or bounded",
-        technique="contract-based deductive verification (postconditions cursor/nonneg per read contract)"),
-    'C20': dict(
+    'C11': dict(cat=X,
+        text="packet_generator is checked against ref_stream: output == per-packet parsing in stream order for all option "
+             "combinations, unrecognized packets in position as error objects, and the definition is structurally "
+             "unchanged by parsing (canonical dump before/after). The framer it iterates is proved (C02/C10).",
+        design_ref="DESIGN.md 7 (C11), 16", note="generators only, no threads", technique=BOUNDED_TECH),
+    'C12': dict(cat=X,
+        text="Segment reassembly is checked against the step function of the statement (per-APID open group, closed on "
+             "LAST whatever the outcome): ALL histories over {FIRST,CONT,LAST,UNSEG} x 2 APIDs up to length 4 (5 in the "
+             "thorough tier), random longer ones with gaps, cancelling gaps, wrap-around at 16383, secondary-header "
+             "lengths 0 and 2; combined raw bytes compared.",
+        design_ref="DESIGN.md 7 (C12), 16", note="bounded stand-in", technique=BOUNDED_TECH),
+    'C13': dict(cat=P,
+        text="Unbounded proof: create_ccsds_packet is proved to raise ValueError exactly outside the field ranges and "
+             "otherwise to produce the CCSDS header polynomial v*2^45+t*2^44+s*2^43+a*2^32+f*2^30+c*2^16+(len-1) "
+             "followed by the data; each accessor is proved against bits(self,p,n) at the CCSDS position; round trip "
+             "and re-framing are ghost client programs verified against the contracts only; the framer is in the tree.",
+        design_ref="DESIGN.md 7 (C13)", note="E11 (cached_property returns the first computed value; the buffer is immutable)",
+        technique="contract-based deductive verification + lemmas as ghost client programs over contracts"),
+    'C14': dict(cat=P,
+        text="Proof of the cursor accounting on the read path: every read that returns normally has nbits >= 0 and moves "
+             "the cursor by exactly nbits (monotone cursor), reads past the end raise or leave the cursor beyond the end, "
+             "integer fields advance by their width. The generator-level clause (yielded clean iff all bits consumed; "
+             "over-reads and negative lengths never clean) is checked by the bounded stand-in on streams with short, "
+             "exact and long packets.",
+        design_ref="DESIGN.md 7 (C14)", note="generator-level clause bounded", technique="contract-based deductive verification (cursor/nonneg postconditions); bounded stand-in at stream level"),
+    'C15': dict(cat=X,
+        text="Same ghost program as C09: W(D) == W(D) with a fixed date, canonical dump of D unchanged by writing, every "
+             "element in the definition's namespace, and W(L(W(L(W(D))))) == W(L(W(D))) byte for byte.",
+        design_ref="DESIGN.md 7 (C15), 16", note="E6: bounded only", technique="bounded stand-in only (ghost client program run natively); deductive proof not reached - lxml"),
+    'C16': dict(cat=X,
+        text="from_xtce on documents produced by an independent emitter in five namespace spellings, with comments between "
+             "all sibling elements, after histories of 0..3 prior loads (other conventions, malformed XML, documents "
+             "that fail to load): the result equals the definition assembled from objects.",
+        design_ref="DESIGN.md 7 (C16), 16", note="E6: bounded only", technique="bounded stand-in only; deductive proof not reached - lxml"),
+    'C17': dict(cat=X,
+        text="from_xtce result is a consistent object graph (identity of every entry / nested / base link, inheritor "
+             "lists == containers naming the base, each once) incl. forward references and repeated nested references; "
+             "nine single-point corruptions (duplicates, undefined references, base and nesting cycles) are rejected at "
+             "load.",
+        design_ref="DESIGN.md 7 (C17), 16", note="E6: bounded only; cycle rejection is by RecursionError", technique="bounded stand-in only; deductive proof not reached - lxml"),
+    'C18': dict(cat=X,
+        text="create_dataset on flat per-APID layouts over every parameter type/encoding with value extremes (all-zero / "
+             "all-one bodies), multi-APID interleavings over 1..2 files, raw and derived mode: one row per packet in "
+             "order, every cell equal to the reference value. One known finding (NUL-terminated text/bytes, numpy S/U "
+             "dtypes) is reported as KNOWN-FINDING.",
+        design_ref="DESIGN.md 7 (C18), 16", note="E8 (numpy/xarray)", technique=BOUNDED_TECH),
+    'C19': dict(cat=X,
+        text="spp describe-packets / parse run through click's CliRunner with the rows handed to rich captured: files of "
+             "n = 0..14, 20, 33 packets and every index 0..n+1; termination on every file follows from the PROVED "
+             "termination of the framer (C10) which is in this property's proof tree.",
+        design_ref="DESIGN.md 7 (C19), 16", note="E9 (click / rich)", technique=BOUNDED_TECH),
+    'C20': dict(cat=P,
         text="_Parameter.__new__ is proved for all five value classes x raw kinds (value is the built-in value, "
              "raw_value = value when none is given, falsy or not). The rest of C20 is CPython object-model behaviour: "
              "structural obligations read from the class ASTs (no protocol overrides) under assumption E10, plus a "
              "BOUNDED enumeration (labelled bounded, not proof) of operators/hash/format/copy/deepcopy/pickle.",
         design_ref="DESIGN.md 7 (C20)", note="E10 (CPython object model: subclasses without overrides inherit built-in behaviour; copyreg reconstruction)",
         technique="contract proof of __new__ + structural obligations under an assumed object-model contract; bounded stand-in for copy/pickle"),
-    'C04': dict(
-        text="Integer half proved unbounded: _twos_complement and IntegerDataEncoding._get_raw_value against "
-             "int_decode(bits(...), n, encoding, byte order) for symbolic width, offset, buffer; cursor clause. "
-             "Float half: see evidence (format selection / MIL arithmetic) - IEEE decoding itself is struct's (E2).",
-        design_ref="DESIGN.md 7 (C04)", note="E2 (struct.unpack is the IEEE-754 value), E3 (real arithmetic for the MIL-1750A product)",
-        technique="contract-based deductive verification; float decoding up to an assumed contract on struct.unpack"),
 }
 
 NOT_YET = "check not built yet (build in progress; see DESIGN.md section 12 for the order)"
@@ -80,7 +168,7 @@ def main():
             evidence_file=f"/verif/evidence/{pid}.json",
             replay_cmd_template="/venv/bin/python /verif/pyvc/native.py replay {path}",
             engine="pyvc",
-            level_claimed=dict(category='proof', text=c['text'], design_ref=c['design_ref']),
+            level_claimed=dict(category=c['cat'], text=c['text'], design_ref=c['design_ref']),
             level_note=COMMON_NOTE + c['note'],
             technique=c['technique'],
         ))
